@@ -435,3 +435,112 @@ Example parser_example :
   map event_of (run_ops (parser_new [97;45;98]%Z) (repeat (OSplit [45]%Z) 3))
   = [EvPiece [97]%Z; EvPiece [98]%Z; EvErr ESplitExhausted].
 Proof. reflexivity. Qed.
+
+(* ------------------------------------------------------------ terminator protocols *)
+
+Definition is_nil {A} (l : list A) : bool := match l with [] => true | _ => false end.
+
+(** [split_terminator] repeated: every piece that is FOLLOWED by a delimiter, then an error:
+    SplitExhausted when the input ended with the delimiter, DelimiterNotFound otherwise *)
+Definition term_events (ps : list (list Z)) : list pevent :=
+  map EvPiece (removelast ps) ++
+  [EvErr (if is_nil (last ps []) && Nat.ltb 1 (length ps) then ESplitExhausted else EDelimiterNotFound)].
+
+Lemma split_rel_nil_inv d ps : d <> [] -> split_rel d [] ps -> ps = [[]].
+Proof.
+  intros Hd H. inversion H; subst; [reflexivity|].
+  match goal with H : first_occ [] d _ |- _ => destruct H as [Ho _]; apply occ_bound in Ho end.
+  destruct d; [congruence | cbn in Ho; lia].
+Qed.
+Lemma rsplit_rel_nil_inv d ps : d <> [] -> rsplit_rel d [] ps -> ps = [[]].
+Proof.
+  intros Hd H. inversion H; subst; [reflexivity|].
+  match goal with H : last_occ [] d _ |- _ => destruct H as [Ho _]; apply occ_bound in Ho end.
+  destruct d; [congruence | cbn in Ho; lia].
+Qed.
+
+Lemma term_events_cons_nonnil x rest : rest <> [] -> (rest <> [[]]) ->
+  (forall y, rest = [y] -> y <> []) ->
+  term_events (x :: rest) = EvPiece x :: term_events rest.
+Proof.
+  intros Hne _ Hsingle. unfold term_events.
+  destruct rest as [|y rest']; [congruence|].
+  change (removelast (x :: y :: rest')) with (x :: removelast (y :: rest')).
+  change (last (x :: y :: rest') []) with (last (y :: rest') []).
+  cbn [map app]. f_equal. f_equal. f_equal. f_equal.
+  destruct rest' as [|z rest''].
+  - cbn. destruct y; [exfalso; exact (Hsingle [] eq_refl eq_refl)|reflexivity].
+  - cbn [length]. destruct (is_nil (last (y :: z :: rest'') [])); reflexivity.
+Qed.
+
+Lemma run_ops_repeat_err p o n e : step p o = PErr e -> run_ops p (repeat o (S n)) = [PErr e].
+Proof. intros H. cbn [repeat run_ops]. now rewrite H. Qed.
+
+Theorem split_terminator_protocol d : d <> [] -> forall s ps, split_rel d s ps ->
+  forall p n, p_str p = s -> p_yls p = false -> (length ps <= n)%nat ->
+  map event_of (run_ops p (repeat (OSplitTerminator d) n)) = term_events ps.
+Proof.
+  intros Hd s ps Hr. induction Hr as [h Hn | h i rest Hi Hr IH]; intros p n Hs Hy Hlen.
+  - destruct n as [|n]; [cbn in Hlen; lia|].
+    cbn [repeat run_ops step]. unfold frame. cbn [set_dir p_yls p_str]. rewrite Hy, Hs.
+    destruct h as [|c h'].
+    + reflexivity.
+    + apply split_once_m_none in Hn; [|exact Hd]. rewrite Hn. reflexivity.
+  - destruct n as [|n]; [cbn in Hlen; lia|].
+    pose proof (occ_bound _ _ _ (proj1 Hi)) as B.
+    assert (Hdl : (length d > 0)%nat) by (destruct d; [congruence | cbn; lia]).
+    destruct h as [|c h']; [cbn in B; lia|]. set (h := c :: h') in *.
+    cbn [repeat run_ops step]. unfold frame at 1. cbn [set_dir p_yls p_str]. rewrite Hy, Hs.
+    unfold h at 1. fold h. rewrite (split_once_of_first h d i Hd Hi).
+    set (after := skipn (i + length d) h) in *.
+    cbn [map event_of]. destruct after as [|a0 after'] eqn:Ea.
+    + (* the input ended with the delimiter *)
+      apply split_rel_nil_inv in Hr; [|exact Hd]. subst rest.
+      destruct n as [|n]; [cbn in Hlen; lia|].
+      cbn [repeat run_ops step]. unfold frame. cbn. reflexivity.
+    + rewrite (IH _ n); [| reflexivity | reflexivity | cbn in Hlen; lia].
+      symmetry. apply term_events_cons_nonnil.
+      * eapply split_rel_nonempty; eauto.
+      * intro E. subst rest. inversion Hr; subst.
+        match goal with H : split_rel d _ [] |- _ => now apply split_rel_nonempty in H end.
+      * intros y E. subst rest. inversion Hr; subst; [discriminate|].
+        match goal with H : split_rel d _ [] |- _ => now apply split_rel_nonempty in H end.
+Qed.
+
+(** the mirror image for [rsplit_terminator]: every piece PRECEDED by a delimiter *)
+Theorem rsplit_terminator_protocol d : d <> [] -> forall s ps, rsplit_rel d s ps ->
+  forall p n, p_str p = s -> p_yls p = false -> (length ps <= n)%nat ->
+  map event_of (run_ops p (repeat (ORSplitTerminator d) n)) = term_events ps.
+Proof.
+  intros Hd s ps Hr. induction Hr as [h Hn | h i rest Hi Hr IH]; intros p n Hs Hy Hlen.
+  - destruct n as [|n]; [cbn in Hlen; lia|].
+    cbn [repeat run_ops step]. unfold frame. cbn [set_dir p_yls p_str]. rewrite Hy, Hs.
+    destruct h as [|c h'].
+    + reflexivity.
+    + apply rsplit_once_m_none in Hn; [|exact Hd]. rewrite Hn. reflexivity.
+  - destruct n as [|n]; [cbn in Hlen; lia|].
+    pose proof (occ_bound _ _ _ (proj1 Hi)) as B.
+    assert (Hdl : (length d > 0)%nat) by (destruct d; [congruence | cbn; lia]).
+    destruct h as [|c h']; [cbn in B; lia|]. set (h := c :: h') in *.
+    cbn [repeat run_ops step]. unfold frame at 1. cbn [set_dir p_yls p_str]. rewrite Hy, Hs.
+    unfold h at 1. fold h. rewrite (rsplit_once_of_last h d i Hd Hi).
+    set (after := firstn i h) in *.
+    cbn [map event_of]. destruct after as [|a0 after'] eqn:Ea.
+    + apply rsplit_rel_nil_inv in Hr; [|exact Hd]. subst rest.
+      destruct n as [|n]; [cbn in Hlen; lia|].
+      cbn [repeat run_ops step]. unfold frame. cbn. reflexivity.
+    + rewrite (IH _ n); [| reflexivity | reflexivity | cbn in Hlen; lia].
+      symmetry. apply term_events_cons_nonnil.
+      * eapply rsplit_rel_nonempty; eauto.
+      * intro E. subst rest. inversion Hr; subst.
+        match goal with H : rsplit_rel d _ [] |- _ => now apply rsplit_rel_nonempty in H end.
+      * intros y E. subst rest. inversion Hr; subst; [discriminate|].
+        match goal with H : rsplit_rel d _ [] |- _ => now apply rsplit_rel_nonempty in H end.
+Qed.
+
+Example terminator_example :
+  map event_of (run_ops (parser_new [97;45;98;45]%Z) (repeat (OSplitTerminator [45]%Z) 5))
+  = [EvPiece [97]%Z; EvPiece [98]%Z; EvErr ESplitExhausted] /\
+  map event_of (run_ops (parser_new [97;45;98]%Z) (repeat (OSplitTerminator [45]%Z) 5))
+  = [EvPiece [97]%Z; EvErr EDelimiterNotFound].
+Proof. split; reflexivity. Qed.
